@@ -14,6 +14,7 @@ Decides:
 Faithfulness of well-formed input is C11's reader tables plus C04.K6/K7 (re-evaluated here).
 Does not decide semantic sanity of the position (two kings of one colour, 40 queens): outside "well-formed".
 """
+import re
 from . import core, hir, mir
 from . import p04, p11, p15
 from .common import discr_map, sym_fn, fmt_writes
@@ -36,12 +37,30 @@ def run(ctx):
     w4_w5(ctx, F)
     w6(ctx, F)
     w7(ctx, F)
+    w8(ctx, F)
     before, nv = len(ctx.instances), len(ctx.violations)
     p11.reader(ctx, F)
     p04.rule_k7(ctx, F)
     p11.t8_board_dependent_rejections(ctx, F)
     relabel(ctx, before, nv, "C17.FAITHFUL")
     ctx.assume("material is sane enough for the i16 running score not to overflow in debug builds (> 36 queens of one colour would)")
+
+
+def w8(ctx, F):
+    """W8 a number in the text (the move counters of fields 5 and 6) is never read into a type narrower than the values a FEN can
+    carry: full-move numbers of long games exceed 255, so `parse::<u8>()` / `parse::<i8>()` refuses well-formed text."""
+    fn = F.fn(NEW)
+    wide = ("u16", "u32", "u64", "u128", "usize", "i32", "i64", "i128", "isize", "f32", "f64")
+    for n, anc in hir.walk(fn["hir"]["body"]):
+        if n.get("k") == "MethodCall" and n["name"] == "parse" and (hir.callee_of(n) or "").endswith("<impl str>::parse"):
+            ty = str(n.get("ty") or "")
+            m = re.match(r"std::result::Result<([A-Za-z0-9_]+),", ty)
+            tgt = m.group(1) if m else None
+            if tgt is None or not re.match(r"[iu](8|16|32|64|128|size)$|f(32|64)$", tgt):
+                continue
+            ctx.check("C17.W8", "numbers-of-the-text-read-into-a-wide-enough-type", tgt in wide, fn=NEW, file=fn["file"], line=hir.line(n),
+                      what="a numeric field of the text is parsed into a type too narrow for the values a well-formed FEN can carry "
+                           "(full-move numbers above 255 occur in long games): such text is refused", expected="u16 or wider", found=tgt)
 
 
 def relabel(ctx, before, nv, rule):
@@ -421,6 +440,55 @@ def _fold_char_preds(t):
     return t
 
 
+EP_TEXTS = ("a3", "d3", "h3", "a6", "e6", "h6", "q3", "A3", "i6", "`3", "e9", "e0", "e4", "e5", "e", "", "e3xyz", "e66", "3e", "ee", "66", "e 6")
+
+
+def en_passant_by_value(F, fn, body, sym, call):
+    """The recorded column under literal en-passant texts and both sides to move: a text `<a-h><6 if White is to move, 3 if Black>`
+    must give the file's index, every other text must leave the importer through an error return before the value is used.
+    Returns the list of failing cases ([] = the clause holds), or a one-element list with the reason when the code cannot be read."""
+    from .common import chess_evalcalls
+    D = discr_map(F)
+    arg = sym(call["args"][0])
+    guards = hir.guards_of(call, body, sym) or []
+    gterm = hir.guards_term(guards)
+    # the text: a free variable of type &str the column depends on
+    strs = set()
+    for n, _ in hir.walk(body):
+        to = n.get("to") or {}
+        if n.get("k") == "Path" and to.get("res") == "local" and str(n.get("ty")) in ("&str", "&'_ str"):
+            strs.add(to.get("name"))
+
+    def player_valued(t):
+        return t[0] == "match" and any(b[0] == "variant" and str(b[1]).startswith("chess::Player::") for _, _, b in t[2]) and \
+            all((b[0] == "variant" and str(b[1]).startswith("chess::Player::")) or b[0] in ("ret", "call", "panic") for _, _, b in t[2])
+    players = {t for x in (arg, gterm) for t in hir.subterms(x) if isinstance(t, tuple) and t and (player_valued(t) or t[:2] == ("var", "current_player"))}
+    arg0 = hir.subst(arg, {p_: ("variant", "chess::Player::White") for p_ in players})
+    free = sorted({t[1] for t in hir.subterms(arg0) if isinstance(t, tuple) and t[:1] == ("var",) and t[1] in strs})
+    if len(free) != 1:
+        return ["the column does not depend on exactly one text variable: %s" % free]
+    text = ("var", free[0])
+    ev = chess_evalcalls(None, {})
+    bad = []
+    for side, rank in (("White", "6"), ("Black", "3")):
+        for txt in EP_TEXTS:
+            a = {p_: ("variant", "chess::Player::" + side) for p_ in players}
+            a[text] = ("lit", txt)
+            v = hir.fold(arg, a, D, hir.table_helpers(F), ev)
+            v = hir.fold(v, a, D, hir.table_helpers(F), ev)
+            g = hir.fold(hir.fold(gterm, a, D, hir.table_helpers(F), ev), a, D, hir.table_helpers(F), ev)
+            valid = len(txt) == 2 and txt[0] in "abcdefgh" and txt[1] == rank
+            if valid:
+                if v != ("lit", ord(txt[0]) - 97) or g == ("lit", False):
+                    bad.append((side, txt, "column %s" % hir.fmt(v, 60)))
+            else:
+                rejected = (isinstance(v, tuple) and v[:1] == ("ret",) and "Err" in hir.fmt(v, 200)) or g == ("lit", False) or \
+                    (isinstance(g, tuple) and g[:1] == ("ret",) and "Err" in hir.fmt(g, 200))
+                if not rejected:
+                    bad.append((side, txt, "accepted as %s" % hir.fmt(v, 60)))
+    return bad
+
+
 def w4_w5(ctx, F):
     fn = F.fn(NEW)
     body = fn["hir"]["body"]
@@ -455,11 +523,16 @@ def w4_w5(ctx, F):
             if n.get("k") == "MethodCall" and n["name"] in ("nth", "next") and "chars" in hir.fmt(sym(n["recv"]), 80):
                 lossy.append("first character only (%s)" % n["name"])
         ok = bool(bounded) and bool(whole) and not lossy
+        by_value = None
+        if not ok:
+            # not the reference spelling: decide the clause by value, on a table of en-passant texts for both sides to move
+            by_value = en_passant_by_value(F, fn, body, sym, call)
+            ok = by_value == []
         ctx.check("C17.W4", "en-passant-file-constrained-before-decoding", ok, fn=NEW, file=fn["file"], line=hir.line(call),
                   what="the en-passant letter is decoded with byte arithmetic and merged into the bitfield that also holds the castling "
                        "rights before it is range-checked: `q3` / `A3` flip castling rights, `e9` or `e3xyz` are accepted",
                   expected="file byte bound by a pattern b'a'..=b'h' inside a 2-byte slice pattern on the whole field",
-                  found={"range-bound bytes": bounded, "slice patterns": slices, "lossy": lossy})
+                  found={"range-bound bytes": bounded, "slice patterns": slices, "lossy": lossy, "by value": by_value})
     ctx.floor("C17.W4", "en-passant decoding sites", sites, 1)
     # rank character must be checked too (whole field)
     # side field: matched as a whole string
@@ -486,7 +559,14 @@ def w4_w5(ctx, F):
                 cast = (n, pks)
     ok = cast is not None and set(cast[1]) >= {("lit", "K"), ("lit", "Q"), ("lit", "k"), ("lit", "q"), ("lit", "-")} and cast[1][-1] == "_" \
         and any(x.get("k") == "Ret" for x, _ in hir.walk(cast[0]["arms"][-1]["body"]))
-    ctx.check("C17.W5", "castling-field-character-by-character", ok, fn=NEW, file=fn["file"], line=hir.line(cast[0]) if cast else None,
+    if not ok:
+        # several matches / a validation pass before the setters: decide per character that an error return is reached
+        from . import p11
+        bv = p11.castling_unknown_refused(F, fn)
+        if bv is not None:
+            ok = not bv
+            cast = cast or (None, ["not refused: %s" % bv])
+    ctx.check("C17.W5", "castling-field-character-by-character", ok, fn=NEW, file=fn["file"], line=hir.line(cast[0]) if cast and cast[0] else None,
               what="every character of the castling field must be one of KQkq- or the import must fail", found=[str(p) for p in cast[1]] if cast else None)
 
 
